@@ -531,3 +531,45 @@ def bodies_with_helpers(F, fn, depth=2):
                         nxt.append(hb)
         frontier = nxt
     return out
+
+
+
+def sort_key_fields(F, fn, sort_term):
+    """what a sort call orders by: the set of field names its key / comparator closure (or fn item) reads from the elements and
+    compares -- ({'line'}, stable?) for sort_by_key(|d| d.line) and for sort_by(|a, b| a.line.cmp(&b.line)) alike; None if unknown"""
+    from ..core import op_local, place_fields, op_place
+    from ..flow import origins, rvalue_operands
+    name = sort_term["callee"].get("name") or ""
+    if len(sort_term["args"]) < 2:
+        return set() if name in ("sort", "sorted", "sort_unstable", "sorted_unstable") else None
+    a = sort_term["args"][1]
+    cf = None
+    l = op_local(a)
+    if l is not None:
+        ty = fn.local_ty(l).peel_refs()
+        if ty.kind() == "closure":
+            cf = F.fn(ty.d["closure"])
+    if cf is None and (a.get("const") or {}).get("fn"):
+        cf = F.fn(a["const"]["fn"])
+    if cf is None:
+        return None
+    fields = set()
+    other = False
+    for body in F.with_closures(cf):
+        for bi, si, st in body.assigns():
+            rv = st["rv"]
+            places = [rv["ref"]] if "ref" in rv else []
+            places += [op_place(o) for o in rvalue_operands(rv) if op_place(o) is not None]
+            for pl in places:
+                fs = [nm for of, nm, _ in place_fields(pl) if of not in ("tuple", "closure", None)]
+                if fs and 2 <= pl["l"] <= cf.argc:
+                    fields.add(fs[-1])
+        for bi, t in body.calls():
+            nm = t["callee"].get("name")
+            if nm not in ("cmp", "partial_cmp", "clone", "deref", "borrow", "as_ref", "then", "then_with", "reverse", "lt", "le", "gt", "ge", "eq", "ne", "max", "min"):
+                other = True
+            if nm == "reverse":
+                fields.add("<reversed>")
+    if other:
+        return None
+    return fields
